@@ -605,23 +605,118 @@ Proof.
     apply xexpected_spec in X. apply xget_iff in X. congruence.
 Qed.
 
-Inductive gcase := GB (c : case) | GX (c : xcase).
+(* ---------- the caller's context (GetCertificates' first parameter) ----------
+   The code of today ignores ctx. The property leaves room for an implementation that honours
+   it, but only in one way: a context that is done may turn the call into a FAILURE AS A WHOLE;
+   it may never change what a successful call returns (a scan given up half-way must not hand
+   out the certificates collected so far). [ctx_done_at] = Some n: the context reports done
+   from its n-th poll on (0 = already cancelled); None: never. How often an implementation
+   polls is not fixed, so the model is a relation: the result of the context-free model, or
+   (when the context can be done) a failure. *)
+Definition ctx_res_allowed (i : input) (ctx_done_at : option N) (r : res) : Prop :=
+  r = load i \/ (ctx_done_at <> None /\ exists c k e, r = Failed c k e).
 
-Definition gid (g : gcase) : N := match g with GB c => c_id c | GX c => xc_id c end.
+Definition is_oerr (o : obs) : bool := match o with OErr _ _ _ => true | OOk _ => false end.
+Definition ctx_can_be_done (c : option N) : bool := match c with Some _ => true | None => false end.
+
+(* correspondence for a call with a scripted context *)
+Definition cagree (i : input) (ctx_done_at : option N) (o : obs) : bool :=
+  obs_eqb (model i) o || (ctx_can_be_done ctx_done_at && is_oerr o).
+
+(* the property oracle with a context: everything (when loadable) or an error; an error for a
+   loadable store only when the context can be done; a proper subset never *)
+Definition cspec_ok (i : input) (ctx_done_at : option N) (o : obs) : bool :=
+  match expected i, o with
+  | Some l, OOk ids => same_ids ids (map ct_id l) && negb (Nat.eqb (List.length ids) 0)
+  | None, OErr _ _ _ => true
+  | Some _, OErr _ _ _ => ctx_can_be_done ctx_done_at
+  | None, OOk _ => false
+  end.
+
+Definition cfp (i : input) (ctx_done_at : option N) (o : obs) : N :=
+  if cspec_ok i ctx_done_at o then 0%N else fp i o.
+
+Record ccase := mk_ccase { cc_id : N; cc_in : input; cc_ctx : option N; cc_obs : obs }.
+
+Lemma cspec_ok_none i o : cspec_ok i None o = spec_ok i o.
+Proof. unfold cspec_ok, spec_ok. destruct (expected i), o; reflexivity. Qed.
+
+Lemma cagree_none i o : cagree i None o = obs_eqb (model i) o.
+Proof. unfold cagree. cbn [ctx_can_be_done andb]. apply orb_false_r. Qed.
+
+Lemma obs_eqb_eq a b : obs_eqb a b = true -> a = b.
+Proof.
+  destruct a as [x|c k e], b as [y|c' k' e']; cbn [obs_eqb]; try discriminate.
+  - intros H. f_equal. revert y H. induction x as [|a x IH]; intros [|b y]; cbn [list_eqb]; try discriminate.
+    + reflexivity.
+    + intros H. apply andb_true_iff in H. destruct H as [H1 H2]. apply N.eqb_eq in H1. subst.
+      f_equal. now apply IH.
+  - intros H. apply andb_true_iff in H. destruct H as [H H3]. apply andb_true_iff in H. destruct H as [H1 H2].
+    apply String.eqb_eq in H3. subst.
+    destruct c, c'; try discriminate; destruct k, k'; try discriminate; reflexivity.
+Qed.
+
+(* every behaviour the model allows satisfies the oracle *)
+Lemma cagree_cspec_ok i c o : cagree i c o = true -> cspec_ok i c o = true.
+Proof.
+  unfold cagree. intros H. apply orb_true_iff in H. destruct H as [H|H].
+  - apply obs_eqb_eq in H. subst o. pose proof (model_spec_ok i eq_refl) as M.
+    rewrite <- cspec_ok_none in M. unfold cspec_ok in *.
+    destruct (expected i), (model i); try assumption; try discriminate; reflexivity.
+  - apply andb_true_iff in H. destruct H as [Hc Ho]. unfold cspec_ok.
+    destruct o; [discriminate|]. destruct (expected i); [exact Hc | reflexivity].
+Qed.
+
+(* the oracle accepts returned certificates only for a loadable store and only as the full set *)
+Lemma cspec_ok_ok i c ids :
+  cspec_ok i c (OOk ids) = true ->
+  exists l, loadable (i_root i) (i_ty i) (i_name i) l /\ same_ids ids (map ct_id l) = true /\ ids <> [].
+Proof.
+  unfold cspec_ok. destruct (expected i) as [l|] eqn:E; [|discriminate].
+  intros H. apply andb_true_iff in H. destruct H as [H1 H2]. exists l.
+  split; [now apply expected_spec|]. split; [exact H1|]. destruct ids; [discriminate | discriminate].
+Qed.
+
+Lemma cspec_ok_err_loadable i c cl k e l :
+  loadable (i_root i) (i_ty i) (i_name i) l -> cspec_ok i c (OErr cl k e) = true -> c <> None.
+Proof.
+  intros L. apply expected_spec in L. unfold cspec_ok. rewrite L. destruct c; [discriminate | discriminate].
+Qed.
+
+(* all or nothing for every result the relation allows *)
+Lemma ctx_all_or_nothing i c r :
+  ctx_res_allowed i c r ->
+  match r with
+  | Loaded l => loadable (i_root i) (i_ty i) (i_name i) l
+  | Failed _ _ _ => c <> None \/ forall l, ~ loadable (i_root i) (i_ty i) (i_name i) l
+  end.
+Proof.
+  intros [->|[Hc (cl & k & e & ->)]].
+  - destruct (load i) as [l|cl k e] eqn:E; [now apply load_iff|].
+    right. intros l L. apply load_iff in L. congruence.
+  - left. exact Hc.
+Qed.
+
+Inductive gcase := GB (c : case) | GX (c : xcase) | GC (c : ccase).
+
+Definition gid (g : gcase) : N := match g with GB c => c_id c | GX c => xc_id c | GC c => cc_id c end.
 Definition gagree (g : gcase) : bool :=
   match g with
   | GB c => obs_eqb (model (c_in c)) (c_obs c)
   | GX c => obs_eqb (xmodel (xc_in c)) (xc_obs c)
+  | GC c => cagree (cc_in c) (cc_ctx c) (cc_obs c)
   end.
 Definition gok (g : gcase) : bool :=
   match g with
   | GB c => negb (wf (c_in c)) || spec_ok (c_in c) (c_obs c)
   | GX c => xspec_ok (xc_in c) (xc_obs c)
+  | GC c => cspec_ok (cc_in c) (cc_ctx c) (cc_obs c)
   end.
 Definition gfp (g : gcase) : N :=
   match g with
   | GB c => fp (c_in c) (c_obs c)
   | GX c => xfp (xc_in c) (xc_obs c)
+  | GC c => cfp (cc_in c) (cc_ctx c) (cc_obs c)
   end.
 
 Definition grun (cs : list gcase) : list (N * N * N) := run_cases gid gagree gok gfp cs.
